@@ -45,7 +45,7 @@ Fixpoint paced (g since : Z) (fresh : bool) (ops : list op) : bool :=
       | Rec _ => fresh && (since <=? g) && paced g 0 false t
       | Sync | Restart => paced g since true t
       | Tick d => (0 <=? d) && paced g (since + d) fresh t
-      | EnvDelete => paced g since false t
+      | EnvDelete | ForeignFin _ => paced g since false t
       | _ => paced g since fresh t
       end
   end.
@@ -132,7 +132,7 @@ Qed.
 Lemma done_del_claim k s s1 : pc s1 = del_claim (pc s) -> Done k s1.
 Proof.
   intros E. right. rewrite E. destruct (pc s) as [c|]; simpl; [|exact I].
-  destruct (c_fin c); simpl; [left; reflexivity|exact I].
+  destruct (c_fin c || c_ffin c)%bool; simpl; [left; reflexivity|exact I].
 Qed.
 
 Lemma paced_no_expiry k g ops : g + 1 <= k_ttl k ->
@@ -168,6 +168,16 @@ Proof.
   - injection E as <- _. apply (IH _ since fresh); [|exact Hp]. destruct Inv as [A B C D]; constructor; simpl; auto.
   - destruct (dp s); injection E as <- _; apply (IH _ since fresh); try exact Hp;
       destruct Inv as [A B C D]; constructor; simpl; auto.
+  - (* ForeignFin *) injection E as <- _. apply (IH _ since false); [|exact Hp].
+    destruct Inv as [A B C D].
+    assert (Dn : Done k s -> Done k (mkState (set_ffin (pc s) b) (vw s) (nd s) (dp s) (ch s) (made s) (alive s) (now s))).
+    { intros [X|X]; [left; exact X|right]. simpl.
+      destruct (set_ffin_cases (pc s) b) as [E|(c & Hc & E)]; rewrite E; [exact I|]. rewrite Hc in X. exact X. }
+    constructor; simpl; auto; try discriminate.
+    + intros X. destruct (C X) as [Y|Y]; [left; exact (Dn Y)|].
+      destruct (set_ffin_cases (pc s) b) as [E|(c & Hc & E)]; rewrite E; [left; right; simpl; exact I|].
+      right. rewrite Hc in Y. exact Y.
+    + intros p t X. destruct (D p t X) as [Y|Y]; [left; exact Y|right; exact (Dn Y)].
 Qed.
 
 (* The syntactic sufficient condition: fresh reads and reconciles at most g seconds apart, g + 1 <= TTL. *)
